@@ -820,6 +820,160 @@ def genericObj {R V U : Type} [Add R] [Mul R] [Div R] [Zero R] [One R] [Sub U]
   | none => out
   | some f => out + f x
 
+/-! ## data copied from the scico source (round 4)
+
+Everything below `solverTables` is *data of the source*: default argument values, default keyword dictionaries, the guarded
+`raise` statements of every `internal_init`, the Woodbury branch condition.  `harness/linsolve_translate.py` re-reads them with
+`ast` on every run into `Scico/Generated/LinSolveTables.lean`, whose single obligation is `src = solverTables` (`decide`). -/
+
+/-- one `if <test>: raise <err>(…)` of an `internal_init`; for `not isinstance(subject, classes)` the test is structured -/
+structure ClassCheck where
+  guard : String
+  subject : String
+  classes : List String
+  test : String
+  err : String
+  deriving DecidableEq, Repr
+
+/-- one conjunct of the Woodbury branch: `lhs op rhs` (`kind = "cmp"`) or `snp.all(lhs op rhs)` (`kind = "all"`) -/
+structure CondAtom where
+  kind : String
+  lhs : String
+  op : String
+  rhs : String
+  deriving DecidableEq, Repr
+
+structure SolverTables where
+  /-- function (or `Class.__init__`) ↦ [(argument, source text of its default)] -/
+  defaults : List (String × List (String × String))
+  /-- (class, variable, entries of the dict literal) -/
+  kwDicts : List (String × String × List (String × String))
+  /-- class ↦ guarded raises of `internal_init`, in source order -/
+  checks : List (String × List ClassCheck)
+  woodburyBind : String × String
+  woodbury : List CondAtom
+  deriving DecidableEq, Repr
+
+def solverTables : SolverTables :=
+  { defaults := [
+      ("cg", [("x0", "None"), ("tol", "1e-05"), ("atol", "0.0"), ("maxiter", "1000"), ("info", "True"), ("M", "None")]),
+      ("lstsq", [("x0", "None"), ("tol", "1e-05"), ("atol", "0.0"), ("maxiter", "1000"), ("info", "False"), ("M", "None")]),
+      ("bisect", [("args", "()"), ("xtol", "1e-07"), ("ftol", "1e-07"), ("maxiter", "100"), ("full_output", "False"), ("range_check", "True")]),
+      ("golden", [("c", "None"), ("args", "()"), ("xtol", "1e-07"), ("maxiter", "100"), ("full_output", "False")]),
+      ("cg_solver", [("x0", "None"), ("maxiter", "50")]),
+      ("MatrixATADSolver.__init__", [("W", "None"), ("cho_factor", "False"), ("lower", "False"), ("check_finite", "True")]),
+      ("GenericSubproblemSolver.__init__", [("minimize_kwargs", "{'options': {'maxiter': 100}}")]),
+      ("LinearSubproblemSolver.__init__", [("cg_kwargs", "None"), ("cg_function", "'scico'")]),
+      ("MatrixSubproblemSolver.__init__", [("check_solve", "False"), ("solve_kwargs", "None")]),
+      ("CircularConvolveSolver.__init__", [("ndims", "None")]),
+      ("FBlockCircularConvolveSolver.__init__", [("ndims", "None"), ("check_solve", "False")]),
+      ("G0BlockCircularConvolveSolver.__init__", [("ndims", "None"), ("check_solve", "False")])
+    ],
+    kwDicts := [
+      ("LinearSubproblemSolver", "default_cg_kwargs", [("tol", "0.0001"), ("maxiter", "100")]),
+      ("MatrixSubproblemSolver", "default_solve_kwargs", [("cho_factor", "False")])
+    ],
+    checks := [
+      ("LinearSubproblemSolver", [
+          { guard := "admm.f is not None", subject := "admm.f", classes := ["SquaredL2Loss"], test := "", err := "TypeError" },
+          { guard := "admm.f is not None", subject := "admm.f.A", classes := ["LinearOperator"], test := "", err := "TypeError" }]),
+      ("MatrixSubproblemSolver", [
+          { guard := "admm.f is not None", subject := "admm.f", classes := ["SquaredL2Loss"], test := "", err := "TypeError" },
+          { guard := "admm.f is not None", subject := "admm.f.A", classes := ["Diagonal", "MatrixOperator"], test := "", err := "TypeError" },
+          { guard := "for (i, Ci) in enumerate(admm.C_list)", subject := "Ci", classes := ["Diagonal", "MatrixOperator"], test := "", err := "TypeError" }]),
+      ("CircularConvolveSolver", [
+          { guard := "not (admm.f is None)", subject := "admm.f", classes := ["SquaredL2Loss"], test := "", err := "TypeError" },
+          { guard := "not (admm.f is None)", subject := "admm.f.A", classes := ["CircularConvolve", "Identity"], test := "", err := "TypeError" },
+          { guard := "not (admm.f is None)", subject := "admm.f.W", classes := ["Identity"], test := "", err := "ValueError" }]),
+      ("FBlockCircularConvolveSolver", [
+          { guard := "", subject := "", classes := [], test := "admm.f is None", err := "ValueError" },
+          { guard := "not (admm.f is None)", subject := "admm.f", classes := ["SquaredL2Loss"], test := "", err := "TypeError" },
+          { guard := "not (admm.f is None)", subject := "admm.f.A", classes := ["ComposedLinearOperator"], test := "", err := "TypeError" },
+          { guard := "not (admm.f is None)", subject := "admm.f.W", classes := ["Identity"], test := "", err := "ValueError" }]),
+      ("G0BlockCircularConvolveSolver", [
+          { guard := "", subject := "", classes := [], test := "admm.f is not None and (not isinstance(admm.f, ZeroFunctional))", err := "ValueError" },
+          { guard := "", subject := "admm.g_list[0]", classes := ["SquaredL2Loss"], test := "", err := "TypeError" },
+          { guard := "", subject := "admm.C_list[0]", classes := ["ComposedLinearOperator"], test := "", err := "TypeError" }])
+    ],
+    woodburyBind := ("N, M", "A.shape"),
+    woodbury := [{ kind := "cmp", lhs := "N", op := "<", rhs := "M" }, { kind := "cmp", lhs := "D.ndim", op := "==", rhs := "1" },
+                 { kind := "all", lhs := "W", op := "!=", rhs := "0" }] }
+
+/-- source text of the default of argument `arg` of `fn` -/
+def defaultOf (t : SolverTables) (fn arg : String) : Option String :=
+  (t.defaults.lookup fn).bind fun l => l.lookup arg
+
+/-- entries of a default keyword dictionary -/
+def kwDictOf (t : SolverTables) (cls : String) : List (String × String) :=
+  match t.kwDicts.find? (fun e => e.1 == cls) with
+  | some e => e.2.2
+  | none => []
+
+/-- value of one conjunct of the Woodbury condition for `A` of shape `rows × cols` (`N, M = A.shape`), `D.ndim`, and the value
+    of `snp.all(W != 0)`; `none` = a conjunct the model does not know -/
+def CondAtom.eval (a : CondAtom) (rows cols dndim : Nat) (wAllNonzero : Bool) : Option Bool :=
+  if a = { kind := "cmp", lhs := "N", op := "<", rhs := "M" } then some (decide (rows < cols))
+  else if a = { kind := "cmp", lhs := "D.ndim", op := "==", rhs := "1" } then some (decide (dndim = 1))
+  else if a = { kind := "all", lhs := "W", op := "!=", rhs := "0" } then some wAllNonzero
+  else none
+
+/-- `bool(a₁ and a₂ and …)` -/
+def woodburyEval (atoms : List CondAtom) (rows cols dndim : Nat) (wAllNonzero : Bool) : Option Bool :=
+  atoms.foldl (fun acc a => match acc, a.eval rows cols dndim wAllNonzero with
+    | some x, some y => some (x && y)
+    | _, _ => none) (some true)
+
+/-- what an `internal_init` can see of the ADMM object: is `f` `None`; `isinstance(<subject>, <class>)` for the subjects
+    `admm.f`, `admm.f.A`, `admm.f.W`, `admm.g_list[0]`, `admm.C_list[0]`; and for each `C_i` the classes it is an instance of -/
+structure InitFacts where
+  fNone : Bool
+  isinst : String → String → Bool
+  ciInst : List (String → Bool)
+
+/-- guards and unstructured tests the model can interpret -/
+def guardEval (g : String) (F : InitFacts) : Option Bool :=
+  if g = "" then some true
+  else if g = "admm.f is not None" then some (!F.fNone)
+  else if g = "not (admm.f is None)" then some (!F.fNone)
+  else if g = "for (i, Ci) in enumerate(admm.C_list)" then some true
+  else none
+
+def testEval (t : String) (F : InitFacts) : Option Bool :=
+  if t = "admm.f is None" then some F.fNone
+  else if t = "admm.f is not None and (not isinstance(admm.f, ZeroFunctional))" then some (!F.fNone && !F.isinst "admm.f" "ZeroFunctional")
+  else none
+
+/-- does the check raise? (`none`: not interpretable) -/
+def ClassCheck.fires (c : ClassCheck) (F : InitFacts) : Option Bool :=
+  match guardEval c.guard F with
+  | none => none
+  | some false => some false
+  | some true =>
+    if c.subject = "" then testEval c.test F
+    else if c.subject = "Ci" then some (F.ciInst.any fun p => !(c.classes.any p))
+    else some (!(c.classes.any (F.isinst c.subject)))
+
+def errKind (e : String) : String :=
+  if e = "TypeError" then "type" else if e = "ValueError" then "value" else "other"
+
+/-- the class checks of an `internal_init`, in source order: the first one that fires decides the error -/
+def initResult : List ClassCheck → InitFacts → Except String Unit
+  | [], _ => .ok ()
+  | c :: cs, F =>
+    match c.fires F with
+    | none => .error "uninterpretable"
+    | some true => .error (errKind c.err)
+    | some false => initResult cs F
+
+/-- the guarded raises of the `internal_init` of class `cls` -/
+def checksOf (t : SolverTables) (cls : String) : List ClassCheck := (t.checks.lookup cls).getD []
+
+/-- every guard / test of a table is one the model interprets -/
+def checksInterpretable (cs : List ClassCheck) : Bool :=
+  cs.all fun c =>
+    (c.guard ∈ ["", "admm.f is not None", "not (admm.f is None)", "for (i, Ci) in enumerate(admm.C_list)"]) &&
+    (c.subject != "" || c.test ∈ ["admm.f is None", "admm.f is not None and (not isinstance(admm.f, ZeroFunctional))"])
+
 /-! ## executable carrier for the generic models: size-erased array vectors -/
 
 structure FVec (α : Type) where
